@@ -234,6 +234,9 @@ class SerialLink:
         self.queue: list[bytes] = []
         self.await_ack = False
         self.frames_sent: list[tuple] = []  # (offset in stream, kind, length) for fault targeting
+        self.host_frames = 0               # command/data frames received from the host so far
+        self.reject: set[int] = set()      # indices of host frames the device answers with NAK and discards (line noise on
+        #                                    the way TO the device: what a NAK means in the protocol)
 
     def frame(self, ftype: int, payload: bytes) -> bytes:
         hdr = struct.pack("<BBH", 0x5A, ftype, len(payload))
@@ -290,6 +293,11 @@ class SerialLink:
                 del self.rx[:6 + ln]
                 if crc16_xmodem(struct.pack("<BBH", 0x5A, t, ln) + payload) != crc:
                     self.core.errors.append("frame with wrong CRC from host")
+                    self._emit(b"\x5a\xa2", "nak")
+                    continue
+                idx = self.host_frames
+                self.host_frames += 1
+                if idx in self.reject:
                     self._emit(b"\x5a\xa2", "nak")
                     continue
                 if self.await_ack:
